@@ -170,6 +170,7 @@ type GenOpts struct {
 	TableIDReuse bool   // several ids, re-announcements, type changes
 	OddNames     bool   // unusual binlog file names
 	CountChange  bool   // C15: a cached table id is re-announced with another column count
+	Bulk         int    // one history in Bulk holds a transaction of >1024 / >4096 statements (0 = never)
 	HeaderFlags  bool   // harmless event-header flag bits on ordinary events
 	LongIdle     int    // C17: one history in LongIdle gets thousands of tiny ignorable events in front (round packet ordinals)
 	PoisonJSON   bool   // C06: a JSON value the decoder must reject (decode failure ends the stream with an error)
@@ -369,6 +370,7 @@ type builder struct {
 	forceRows   bool   // every rows event carries at least one row
 	unitSID     uint32 // server id stamped on the events of the current unit (0 = the master's)
 	nameBase    int    // first binlog index of this master minus one
+	bulk        int    // the next transaction holds this many single-row statements
 	filler      int    // the next ignorable unit is a run of this many tiny events
 	forceNextTx bool   // the previous file ended with a torn transaction: the next unit must open with BEGIN
 }
@@ -927,6 +929,23 @@ func (b *builder) txBody(ts uint32) []ExpEvent {
 	s := b.s
 	var exps []ExpEvent
 	n := 1 + s.N(b.o.MaxStmts)
+	if b.bulk > 0 {
+		// (a narrow table of its own: thousands of statements must stay small)
+		maxID := uint64(0)
+		for _, x := range b.h.Tables {
+			if x.ID > maxID && x.ID < 1<<40 {
+				maxID = x.ID
+			}
+		}
+		t := &TableDef{ID: maxID + 5, DB: "db", Name: "bulk_load", Cols: []ColDef{
+			{Name: "id", Kind: kLong, TypeCode: tLong}, {Name: "v", Kind: kTiny, TypeCode: tTiny, Nullable: true}}}
+		b.h.Tables = append(b.h.Tables, t)
+		for i := 0; i < b.bulk; i++ {
+			exps = append(exps, b.singleRowsEvent(ts, t)...)
+		}
+		b.bulk = 0
+		return exps
+	}
 	for i := 0; i < n; i++ {
 		if b.o.IgnorableGap > 0 && s.Chance(1, b.o.IgnorableGap*2) {
 			b.ignorable(ts)
@@ -1328,7 +1347,16 @@ func genHistory(s *Stream, o0 *GenOpts) *History {
 	nunits := o.MinUnits + s.N(o.MaxUnits-o.MinUnits+1)
 	rotLeft := o.MaxFiles - 1
 	w := o.UnitWeights
+	bulkAt, bulkN := -1, 0
+	if o.Rare && o.Bulk > 0 && s.Chance(1, o.Bulk) {
+		// a bulk load: one transaction of more than 1024 / 4096 single-row statements
+		bulkAt, bulkN = s.N(nunits), []int{1030, 1030, 4100}[s.N(3)]
+	}
 	for i := 0; i < nunits; i++ {
+		if i == bulkAt {
+			b.bulk = bulkN
+			b.addUnit(uTxXID)
+		}
 		ww := w
 		if rotLeft <= 0 {
 			ww[uRotate] = 0
@@ -1583,12 +1611,27 @@ func (b *builder) addPoisonJSONUnit() {
 		u.Desc = "tx-with-rows-for-unannounced-table-id"
 	} else {
 		b.add(evTableMap, ts, 0, tableMapBody(cfg.Format, t.ID, 1, t.DB, t.Name, types, meta, nullable, nil), fmt.Sprintf("TABLE_MAP id=%d db.jdoc", t.ID))
-		body := rowsBodyHeader(cfg.Format, cfg.RowsV2, t.ID, 1, nil, 2, []bool{true, true})
-		body = append(body, 0)                   // null bitmap
-		body = leN(body, uint64(1+s.N(1000)), 4) // id
-		body = leN(body, uint64(len(doc)), 4)
-		body = append(body, doc...)
-		b.add(typ, ts, 0, body, "ROWS json with an unsupported opaque scalar")
+		good := []byte{4, 1} // JSON literal true
+		img := func(body []byte, d []byte) []byte {
+			body = append(body, 0)                   // null bitmap
+			body = leN(body, uint64(1+s.N(1000)), 4) // id
+			body = leN(body, uint64(len(d)), 4)
+			return append(body, d...)
+		}
+		switch s.N(4) {
+		case 0: // insert
+			body := rowsBodyHeader(cfg.Format, cfg.RowsV2, t.ID, 1, nil, 2, []bool{true, true})
+			b.add(typ, ts, 0, img(body, doc), "ROWS json with an unsupported opaque scalar")
+		case 1: // delete: the bad document is in the before image
+			body := rowsBodyHeader(cfg.Format, cfg.RowsV2, t.ID, 1, nil, 2, []bool{true, true})
+			b.add(typ+2, ts, 0, img(body, doc), "ROWS(delete) json with an unsupported opaque scalar")
+		case 2: // update: bad before image, fine after image
+			body := rowsBodyHeader(cfg.Format, cfg.RowsV2, t.ID, 1, nil, 2, []bool{true, true}, []bool{true, true})
+			b.add(typ+1, ts, 0, img(img(body, doc), good), "ROWS(update) unsupported opaque scalar in the before image")
+		case 3: // update: fine before image, bad after image
+			body := rowsBodyHeader(cfg.Format, cfg.RowsV2, t.ID, 1, nil, 2, []bool{true, true}, []bool{true, true})
+			b.add(typ+1, ts, 0, img(img(body, good), doc), "ROWS(update) unsupported opaque scalar in the after image")
+		}
 	}
 	commit := b.add(evXID, h.ts(s), 0, le64(nil, s.U64()), "XID")
 	u.Tx = &ExpTx{Unit: b.unit, Next: b.posOf(commit), Timestamp: int64(commit.Timestamp), Commit: commit}
